@@ -263,7 +263,9 @@ func (k *TGSReq) setPADataForClient(crealm string, tgt Ticket, sessionKey types.
 		Checksum:  cb,
 	}
 	// Create AP_REQ
-	apReq, err := NewAPReq(tgt, sessionKey, auth)
+	// The authenticator of a PA-TGS-REQ takes key usage 7 whichever ticket is presented (RFC 4120 7.5.1):
+	// a ticket presented for its own renewal is not a TGT.
+	apReq, err := newAPReq(tgt, sessionKey, auth, keyusage.TGS_REQ_PA_TGS_REQ_AP_REQ_AUTHENTICATOR)
 	if err != nil {
 		return krberror.Errorf(err, krberror.KRBMsgError, "error generating new AP_REQ")
 	}
